@@ -94,6 +94,11 @@ class Ledger:
         self.n_events = 0
         self.n_user_unwinds = 0
         self.n_cancel_edges = 0
+        self.touched = set()      # bodies in which a ledger event occurs
+
+    def _ev(self, b):
+        self.n_events += 1
+        self.touched.add(b.path)
 
     def is_managed(self, b):
         return b.path.startswith('deadpool::managed') or b.path.startswith('<deadpool::managed')
@@ -130,7 +135,9 @@ class Ledger:
     def local_callee(self, t):
         if t.kind != 'call' or t.func.kind != 'const':
             return None
-        p = t.func.const.get('rfn') or t.func.const.get('fn')
+        p = t.func.const.get('rfn')          # unresolved (generic / trait-object) callees are user code, not local callees
+        if not p or t.func.const.get('rk') == 'virtual':
+            return None
         b = self.prog.bodies.get(p)
         if b is None or not self.is_managed(b):
             return None
@@ -263,11 +270,11 @@ class Ledger:
                         if rv.kind == 'agg' and rv.j.get('ak') == 'adt':
                             adt = norm_path(strip_generics(rv.j['adt']))
                             if adt == r.OBJECT:
-                                v = vadd(v, (1, 0, -1)); self.n_events += 1; notes.append('Object built')
+                                v = vadd(v, (1, 0, -1)); self._ev(b); notes.append('Object built')
                             elif adt == r.OBJINNER:
-                                v = vadd(v, (0, -1, 0)); self.n_events += 1; notes.append('object created')
+                                v = vadd(v, (0, -1, 0)); self._ev(b); notes.append('object created')
                             elif self.UG and adt == self.UG:
-                                v = vadd(v, (0, 0, -1)); self.n_events += 1; notes.append('users guard armed')
+                                v = vadd(v, (0, 0, -1)); self._ev(b); notes.append('users guard armed')
                         if rv.kind == 'agg' and rv.j.get('ak') == 'coroutine' and dst is not None and rv.j['def'] in prog.bodies and self.is_managed(prog.bodies[rv.j['def']]):
                             lf.add((dst, rv.j['def'], False))
                         if dst is not None and dst in tr:
@@ -275,7 +282,7 @@ class Ledger:
                         lf_ = s.place.last_field() if s.place.proj else None
                         if lf_ == (r.SLOTS, r.SIZE) and s.place.proj[-1] == '.' + r.SIZE:
                             op_, amt = classify_write(an, s)
-                            self.n_events += 1
+                            self._ev(b)
                             if op_ == '+=' and amt == '1_usize':
                                 v = vadd(v, (0, 1, 0)); notes.append('size += 1')
                             elif op_ == '-=' and amt == '1_usize':
@@ -304,7 +311,7 @@ class Ledger:
                     ev = ''
                     if 'tokio::sync::Semaphore::add_permits' in names:
                         amt = an.resolve_operand(t.args[1]) if len(t.args) > 1 else '?'
-                        self.n_events += 1
+                        self._ev(b)
                         if skip_e1:
                             pass
                         elif amt == '1_usize':
@@ -312,20 +319,20 @@ class Ledger:
                         else:
                             self.problems.append((b, t.line, 'add_permits(%s): not an accountable amount' % amt))
                     elif 'tokio::sync::SemaphorePermit::forget' in names:
-                        self.n_events += 1
+                        self._ev(b)
                         if not skip_e1:
                             vn = vadd(v, (-1, 0, 0)); ev = 'permit forgotten'
                     elif any(n.endswith('::fetch_add') and 'atomic' in n for n in names) and t.args and users_f in sources(an, t.args[0]):
-                        vn = vadd(v, (0, 0, 1)); self.n_events += 1; ev = 'users += 1'
+                        vn = vadd(v, (0, 0, 1)); self._ev(b); ev = 'users += 1'
                     elif any(n.endswith('::fetch_sub') and 'atomic' in n for n in names) and t.args and users_f in sources(an, t.args[0]):
-                        vn = vadd(v, (0, 0, -1)); self.n_events += 1; ev = 'users -= 1'
+                        vn = vadd(v, (0, 0, -1)); self._ev(b); ev = 'users -= 1'
                     elif t.args and t.args[0].kind == 'move' and not t.args[0].place.proj and tr.get(t.args[0].place.local) == 'uguard' and t.args[0].place.local in ini:
-                        vn = vadd(v, (0, 0, 1)); self.n_events += 1; ev = 'users guard disarmed'     # the guard will never run (G-1)
+                        vn = vadd(v, (0, 0, 1)); self._ev(b); ev = 'users guard disarmed'     # the guard will never run (G-1)
                     elif t.args and t.args[0].kind == 'move' and not t.args[0].place.proj and tr.get(t.args[0].place.local) == 'wrapper' and dest is not None and tr.get(dest) == 'bare':
-                        self.n_events += 1; ev = 'wrapper -> ready object'                            # ready(): W-1, B+1
+                        self._ev(b); ev = 'wrapper -> ready object'                            # ready(): W-1, B+1
                     elif names & {'std::mem::drop', 'std::mem::forget'} and t.args and t.args[0].kind == 'move' and tr.get(t.args[0].place.local) in ('bare', 'optbare') \
                             and t.args[0].place.local in ini:
-                        vn = vadd(v, (0, 1, 0)); self.n_events += 1; ev = 'object dropped'            # a bare object is destroyed (or leaked)
+                        vn = vadd(v, (0, 1, 0)); self._ev(b); ev = 'object dropped'            # a bare object is destroyed (or leaked)
                     elif bb in qc and qc[bb] in ('clear', 'truncate', 'drain') and b.path not in (r.RESIZE.path, r.RETAIN.path):
                         self.problems.append((b, t.line, 'VecDeque::%s on the idle queue: an unaccountable number of objects leaves the queue' % qc[bb]))
                     else:
@@ -407,10 +414,10 @@ class Ledger:
                         if l in ini2 and l in tr:
                             k = tr[l]
                             if k in ('bare', 'optbare'):
-                                v2 = vadd(v2, (0, 1, 0)); self.n_events += 1
+                                v2 = vadd(v2, (0, 1, 0)); self._ev(b)
                                 note2 = (note + ', ' if note else '') + 'object dropped'
                             else:
-                                self.n_events += 1       # wrapper: S-1, W-1 (its Drop is an entry point); users guard: U-1, G-1 (R03.3)
+                                self._ev(b)       # wrapper: S-1, W-1 (its Drop is an entry point); users guard: U-1, G-1 (R03.3)
                             ini2.discard(l)
                         hit = [(ll, cp, pd) for (ll, cp, pd) in lf2 if ll == l]
                         if hit:
@@ -434,7 +441,7 @@ class Ledger:
                         if t.j.get('dty') == 'bool' and b.path in self.helper_paths and not skip_e1:
                             rel = cmp_relation(an, r, blk, lab)
                             if rel and rel[0] in ('size>max', 'size>=max'):
-                                v2 = vadd(v2, (1, 0, 0)); self.n_events += 1          # surplus: shrink debt paid
+                                v2 = vadd(v2, (1, 0, 0)); self._ev(b)          # surplus: shrink debt paid
                                 note2 = (note + ', ' if note else '') + 'surplus branch'
                         if t.j.get('adt') == 'std::task::Poll' and on is not None and not on['pr'] and on['l'] in poll_dest:
                             cb = poll_dest[on['l']]
